@@ -267,7 +267,7 @@ func cmdCheck(args []string) int {
 		for _, f := range r.Functions {
 			nFuncs++
 			if f.CexPlan != nil {
-				cexPlans[f.Name] = f.CexPlan
+				cexPlans[r.Unit+"|"+f.Name] = f.CexPlan
 			}
 			solveS += f.SolveS
 			fe := map[string]interface{}{"function": f.Name, "unit": r.Unit, "treatment": f.Treatment, "solver_s": round3(f.SolveS), "vcgen_s": round3(f.GenS)}
